@@ -13,8 +13,9 @@
 
     Durations and instants are [Z] nanoseconds; Multiplier, RandomizationFactor and the random
     number are exact rationals [Q] (the harness only compares configurations on which float64
-    arithmetic is exact up to 1 ns).  Domain of the model: Multiplier > 0 (the code divides by
-    it), intervals >= 0. *)
+    arithmetic is exact up to 1 ns).  Multiplier <= 0, negative intervals, MaxInterval <
+    InitialInterval and a negative MaxElapsedTime are modelled as coded (nothing is validated);
+    outside the model: float64/int64 overflow (|values| >= 2^63) and IEEE rounding. *)
 From WM Require Import Base.Prelude.
 From Coq Require Import QArith Qround.
 Open Scope Z_scope.
@@ -31,12 +32,20 @@ Definition STOP : Z := -1.
 (** [time.Duration(f)] for a float f: truncation toward zero *)
 Definition Qtrunc (x : Q) : Z := Z.quot (Qnum x) (Zpos (Qden x)).
 
-(** incrementCurrentInterval: [if float64(cur) >= float64(Max)/Multiplier then Max else
-    Duration(float64(cur)*Multiplier)]; for Multiplier = n/d > 0 the test is cur*n >= Max*d *)
+(** incrementCurrentInterval, as coded for EVERY Multiplier (the code validates nothing):
+    [if float64(cur) >= float64(Max)/Multiplier then Max else Duration(float64(cur)*Multiplier)].
+    For Multiplier = n/d the test [cur >= Max/(n/d)] is cur*n >= Max*d when n > 0 and
+    cur*n <= Max*d when n < 0 (multiplying by a negative number); for n = 0 the float division
+    gives +Inf (Max > 0: never reached), NaN (Max = 0: every comparison false) or -Inf
+    (Max < 0: always reached) *)
+Definition capped (c : cfg) (cur : Z) : bool :=
+  match Qnum (mult c) ?= 0 with
+  | Gt => max_interval c * Zpos (Qden (mult c)) <=? cur * Qnum (mult c)
+  | Lt => cur * Qnum (mult c) <=? max_interval c * Zpos (Qden (mult c))
+  | Eq => max_interval c <? 0
+  end.
 Definition incr_interval (c : cfg) (cur : Z) : Z :=
-  if max_interval c * Zpos (Qden (mult c)) <=? cur * Qnum (mult c)
-  then max_interval c
-  else Qtrunc (inject_Z cur * mult c).
+  if capped c cur then max_interval c else Qtrunc (inject_Z cur * mult c).
 
 (** getRandomValueFromInterval(rf, random, cur) *)
 Definition rv_min (rf : Q) (cur : Z) : Q := inject_Z cur - rf * inject_Z cur.
